@@ -201,9 +201,7 @@ def main(argv=None):
         evaluated += ev
         steps += st
         nplain += npl
-        for idx, step in bad[:12]:
-            ops = cases[idx][0]
-            run.disagree('heap', version=v, step=step, ops=ops[:step + 1], first_difference=H.explain(v, ops, step))
+        H.report_disagreements(run, v, cases, bad)
         for idx, step in bad_plain[:6]:
             run.note('exotic path taken (hist_plain does not hold): version %s step %d ops %s'
                      % (v, step, json.dumps(cases[idx][0][:step + 1])))
@@ -212,6 +210,7 @@ def main(argv=None):
             'paths off, %d of them differ' % (evaluated, steps, len(run.disagreements), nplain,
                                               stats.get('histories_not_plain', 0)))
     stats['histories_replayed_plain'] = nplain
+    H.shrink_oracle_failures(run, oracle_on_history, ('cause',))
     causes = {}
     for f in run.failures:
         key = '%s/%s' % (f['data'].get('cause'), f['data'].get('clause'))
@@ -245,26 +244,32 @@ def main(argv=None):
     ])
 
 
+def oracle_on_history(run, v, ops):
+    state = {'listed': False, 'done': False}
+
+    def hook(impl, kk, op, phase, data):
+        if phase == 'before':
+            hs = [h for h in element_args(op) if 0 <= h < len(impl.I)]
+            state['listed'] = any(is_listed(impl, impl.I[h]) for h in hs)
+            return
+        if state['done']:
+            return
+        viol = inv_violations(impl)
+        if viol:
+            state['done'] = True
+            run.fail('inv-broken', 'the element tree is inconsistent after an API call: ' + viol[0][1][:200],
+                     cause=classify(state['listed'], op), clause=viol[0][0], version=v, outcome=data[0],
+                     ops=ops[:kk + 1], step=kk)
+    H.run_history(v, ops, hook)
+
+
 def replay(run):
     r = json.load(open(run.replay))
     inp = r.get('input', {})
     ops = inp.get('ops')
     v = inp.get('version', '2.5')
     if ops:
-        state = {'listed': False, 'done': False}
-
-        def hook(impl, kk, op, phase, data):
-            if phase == 'before':
-                hs = [h for h in element_args(op) if 0 <= h < len(impl.I)]
-                state['listed'] = any(is_listed(impl, impl.I[h]) for h in hs)
-                return
-            viol = inv_violations(impl)
-            if viol and not state['done']:
-                state['done'] = True
-                run.fail('inv-broken', 'the element tree is inconsistent after an API call: ' + viol[0][1][:200],
-                         cause=classify(state['listed'], op), clause=viol[0][0], version=v, outcome=data[0],
-                         ops=ops[:kk + 1], step=kk)
-        H.run_history(v, ops, hook)
+        oracle_on_history(run, v, ops)
     for f in run.failures:
         print('replayed failure:', f['kind'], f['data'].get('cause'), f['what'])
     run.finish({'evaluations': len(ops or []), 'distinct_nontrivial': 1, 'rule': 'replay of one stored history',
@@ -272,4 +277,5 @@ def replay(run):
 
 
 if __name__ == '__main__':
-    main()
+    from common import run_guarded
+    run_guarded('C10', main)
